@@ -1,0 +1,22 @@
+//go:build verif
+
+// Contracts for deductive verification (govc). Comment-only file (build tag verif).
+
+package main
+
+// C19: a file that is not a .go file or does not parse is never written; every file of a directory / pattern is visited.
+
+//@ func handleFile
+//@   modifies fs.content(filename)
+//@   ensures [C19 gate.suffix] !suffixof(".go", filename) ==> fs.content(filename) == old(fs.content(filename))
+//@   ensures [C19 gate.parse] !parses(old(fs.content(filename))) ==> fs.content(filename) == old(fs.content(filename))
+
+//@ func handleDir
+//@   loop#0 exhaustive [C19 C07 dir.all]
+
+//@ func handlePatternFiles
+//@   loop#0 exhaustive [C19 C07 pattern.all]
+
+//@ func copyInjectTool
+//@ func createInjectToolSh
+//@ func main
